@@ -637,3 +637,24 @@ Proof.
   destruct (Nat.ltb_spec b ny); destruct (Nat.eqb_spec b ny); try lia;
   destruct (Nat.ltb_spec c nz); destruct (Nat.eqb_spec c nz); try lia; reflexivity.
 Qed.
+
+(* ------------------------------------------------------------------ F51: the grid nodes are not mirror symmetric about the axis *)
+(* SpaceChargeKick.track sets cell_size = 2 * grid_dimensions / n for n grid points per axis, and node i sits at
+   -grid_dimensions + i * cell_size: the nodes run from -grid_dimensions to +grid_dimensions - cell_size.  In normalized
+   coordinates the mirror image of position u is n - u (not n - 1 - u): the image of node 0 is node n, which does not exist.
+   (With cell_size = 2 * grid_dimensions / (n - 1) the image of node i would be node n - 1 - i, the symmetry of
+   hockney_force_mirror_x.) *)
+Lemma nrm_mirror : forall dx cx m x, ~ cx == 0 -> cx * m == 2 * dx -> (x + dx) * / cx + (- x + dx) * / cx == m.
+Proof.
+  intros dx cx m x Hc H. assert (E : dx == cx * m / 2) by (rewrite H; field). rewrite E. field. assumption.
+Qed.
+
+(* witness on the geometry the code builds for half extent 1 and 4 points (cell 1/2): a unit charge at x = +7/8, inside the
+   nominal extent [-1, 1], lies between node 3 and the missing node 4 and puts only 1/4 of its charge on the grid; its mirror
+   partner at x = -7/8 lies between nodes 0 and 1 and deposits all of it *)
+Lemma code_grid_not_mirror_symmetric_refuted :
+  let g := mkgeom (1, 1, 1) (1 # 2, 1 # 2, 1 # 2) (4, 4, 4)%Z in
+  let up := mksp (7 # 8) 0 0 0 0 0 1 1 in
+  let dn := mksp (- (7 # 8)) 0 0 0 0 0 1 1 in
+  sumQ (map (contrib g up) (all_idx (g_shape g))) == 1 # 4 /\ sumQ (map (contrib g dn) (all_idx (g_shape g))) == 1.
+Proof. vm_compute. split; reflexivity. Qed.
